@@ -638,6 +638,25 @@ func exploreBare(c *vx.Ctx, props string, maxDev int, bfsDepth int, st *exploreS
 	for _, d := range singles {
 		jobs = append(jobs, job(d))
 	}
+	// Simultaneously ready inputs (controlled main select of the state machine, see smbare.go): the next 2 or 3
+	// scripted events - or one scripted and one inserted event - all reach the state machine's inputs before its
+	// kernel looks at any; every select case is tried as the one taken first.
+	batchInserts := []string{"HC", "TF", "VW:old", "VW:oldheight", "V:c:oh:A", "V:c:oh:nil", "V:p:oh:nil@0,1", "V:p:3:B", "PH:B", "PROP", "BDA", "DR", "SR", "SR:nil"}
+	nBatch := 0
+	for pos := 0; pos < len(script); pos++ {
+		for pref := 1; pref <= 8; pref++ {
+			for n := 2; n <= 3; n++ {
+				jobs = append(jobs, job(fmt.Sprintf("%d:+BATCH:%d:%d", pos, n, pref)))
+				nBatch++
+			}
+			for _, ev := range batchInserts {
+				// the inserted event comes after the scripted event at pos, both inside the batch
+				jobs = append(jobs, job(fmt.Sprintf("%d:+BATCH:2:%d", pos, pref), fmt.Sprintf("%d:+%s", pos+1, ev)))
+				nBatch++
+			}
+		}
+	}
+	c.Extra["bare_sm_batched_input_executions"] = nBatch
 	c.Extra["bare_sm_script_len"] = len(script)
 	c.Extra["bare_sm_alphabet"] = len(alpha)
 	c.Extra["bare_sm_single_deviations"] = len(singles)
